@@ -362,6 +362,7 @@ def _prepare(case):
     x.uri = x.file + "::" + x.dest_group
     x.mode = case.get("mode") or ("w" if case["dest"] == "newfile" else "a")
     x.neigh = {}
+    x.stat = {}
     x.unrelated = None
     x.was_cooler = False
     if x.tpl:
@@ -395,7 +396,15 @@ def _fresh(x):
 
 def _model(x, case, events, pipeline, inputs_ok=True, n=None):
     cfg = {"target": _parts(x.dest_group), "mode": x.mode, "n": case["n"] if n is None else n, "symm": case["symm"]}
-    return drv().ask("C13.run", cfg=cfg, fs=x.groups, events=events, pipeline=pipeline, inputs_ok=inputs_ok)
+    m = drv().ask("C13.run", cfg=cfg, fs=x.groups, events=events, pipeline=pipeline, inputs_ok=inputs_ok)
+    if m["fault"] is not None:
+        # where the run stopped: before the final create touched the destination / inside it, after how many chunks
+        nch = sum(1 for e in events if "chunk" in e)
+        x.stat = {("stopped.before_dest_touched" if m["dest_untouched"] else "stopped.dest_half_written"): 1,
+                  f"stopped_with_stream_of_{min(nch, 5)}_chunks": 1}
+        if m["was_cooler"] and m["is_cooler"]:
+            x.stat["old_destination_still_recognised(root keeps its attributes)"] = 1
+    return m
 
 
 def _call(f):
@@ -593,6 +602,9 @@ def _enumerate(case, observe):
                 continue
             stats["faults"] += 1
             stats[f"kind.{fault['kind']}"] = stats.get(f"kind.{fault['kind']}", 0) + 1
+            for k, v in x.stat.items():
+                stats[k] = stats.get(k, 0) + v
+            x.stat = {}
             if r is not None:
                 return r
         return {"stats": stats}
@@ -721,7 +733,7 @@ def _producer_case(rng, producer, dest, symm, thorough):
         if not inputs[0]:
             inputs[0] = [[0, 0, 2], [0, 1, 3]]
     c = {"producer": producer, "dest": dest, "symm": symm, "n": n, "layout": layout, "inputs": inputs, "thorough": thorough,
-         "mergebuf": rng.choice([1, 2, 3]), "chunksize": rng.choice([1, 2, 3])}
+         "mergebuf": rng.choice([1, 1, 2]), "chunksize": rng.choice([1, 1, 2])}
     if dest == "newfile":
         c["mode"] = rng.choice(["w", "a"])
     if producer == "coarsen" and dest != "newfile" and rng.random() < 0.5:
